@@ -303,9 +303,15 @@ def read_cmdlog(path):
                 if parts[0] == "C":
                     import base64
                     k, _, b = parts[3].rpartition(" ")
-                    rows.append(dict(tag="C", ts=0.0, pid=parts[2], key=k, cmdline=base64.b64decode(b).decode(errors="replace")))
+                    try:
+                        rows.append(dict(tag="C", ts=0.0, pid=parts[2], key=k, cmdline=base64.b64decode(b).decode(errors="replace")))
+                    except Exception:
+                        pass        # line cut short by a kill of the process group
                     continue
-                rows.append(dict(tag=parts[0], ts=float(parts[1] or 0), pid=parts[2], key=parts[3]))
+                try:
+                    rows.append(dict(tag=parts[0], ts=float(parts[1] or 0), pid=parts[2], key=parts[3]))
+                except ValueError:
+                    pass
     except FileNotFoundError:
         pass
     return rows
